@@ -15,9 +15,13 @@ def corrupted (w : World) : Bool :=
   (ro.phase = .progressing && ro.reason = .none) ||
   (ro.phase = .terminating && ro.term = .none) ||
   (ro.phase = .progressing && ro.reason = .inRolling && ro.sub.isNone) ||
-  (match ro.sub with
-   | some s => decide (s.curIdx < 1 ∨ s.curIdx > n) || s.lastUpdate = .none
-   | none => false) ||
+  -- the release manager indexes steps[currentStepIndex-1] and dereferences lastUpdateTime; every other path
+  -- (finalising, reset, terminating) falls back to the first step for an index outside the plan — such an
+  -- index is reachable through the API (drop a step while Healthy, then delete the Rollout)
+  (ro.phase = .progressing && ro.reason = .inRolling &&
+   (match ro.sub with
+    | some s => decide (s.curIdx < 1 ∨ s.curIdx > n) || s.lastUpdate = .none
+    | none => false)) ||
   -- a BatchRelease without (or with an out-of-range) batch partition is dereferenced only when a plan change
   -- is recalculated while rolling
   (ro.phase = .progressing && ro.reason = .inRolling &&
@@ -49,14 +53,15 @@ def jumpRequested (ro : Rollout) (s : Sub) : Bool :=
   let n : Int := ro.steps.length
   decide (s.nextIdx ≠ nextBatchIndex n s.curIdx ∧ s.nextIdx > 0 ∧ s.nextIdx ≤ n)
 
-/-- **C03.ii** — `StepTrafficRouting` of a step is entered only after that step's pods were reported
-    ready: from `StepUpgrade` when the BatchRelease says so, or by a jump / plan change to a step
-    with the same replicas taken from a sub-state in which the current step's pods are ready. -/
+/-- **C03.ii / C02.i** — `StepTrafficRouting` of a step (or, on the full-replica bypass and on steps without
+    traffic, `StepMetricsAnalysis`, the sub-state that follows it) is entered only after that step's pods
+    were reported ready: from `StepUpgrade` when the BatchRelease says so, or by a jump / plan change to a
+    step with the same replicas taken from a sub-state in which the current step's pods are ready. -/
 def enterRoutingGated (w : World) (r : StepResult) : Bool :=
   match w.ro.sub, r.w.ro.sub with
   | some s, some s' =>
-    if inRollingNow w.ro ∧ r.w.ro.reason = .inRolling ∧ s'.state = .trafficRouting ∧
-       (s.state ≠ .trafficRouting ∨ s'.curIdx ≠ s.curIdx) then
+    if inRollingNow w.ro ∧ r.w.ro.reason = .inRolling ∧ (s'.state = .trafficRouting ∨ s'.state = .metricsAnalysis) ∧
+       (s.state ≠ s'.state ∨ s'.curIdx ≠ s.curIdx) then
       ((s.state = .upgrade || s.state = .init) && decide (s'.curIdx = s.curIdx) && upgradeDoneObs w { s with nextIdx := s'.nextIdx }) ||
       podsReady s.state
     else true
@@ -141,6 +146,25 @@ def noSelfJump (w : World) (r : StepResult) : Bool :=
     if hadNone && !r.roGone then !jumpRequested r.w.ro s' else true
   | none => true
 
+/-- **C10 (supersession)** — when a newer revision supersedes the one being released (canary style, traffic
+    routing configured) and the reset starts from the beginning (no reset stage recorded yet), the
+    BatchRelease is deleted and the canary Service removed only in a reconcile that leaves no canary route
+    behind: traffic is back on stable first. -/
+def resetRoutesFirst (w : World) (r : StepResult) : Bool :=
+  match w.ro.sub, w.wl with
+  | some s, some wl =>
+    if inRollingNow w.ro ∧ wl.consistent ∧ ¬ wl.inRollback ∧ ¬ w.ro.paused ∧ w.ro.style = .canary ∧ w.ro.hasTraffic ∧
+       s.canaryRev ≠ "" ∧ wl.canaryRev ≠ s.canaryRev ∧
+       s.finStep ≠ .releaseWorkloadControl ∧ s.finStep ≠ .removeCanaryService ∧ ¬ r.err then
+      let brTouched := (match w.br, r.w.br with
+        | some b, some b' => !b.deleting && b'.deleting
+        | some _, none => true
+        | none, _ => false)
+      let svcRemoved := w.net.canarySvc.isSome && r.w.net.canarySvc.isNone
+      if brTouched || svcRemoved then r.w.net.canaryIng.isNone else true
+    else true
+  | _, _ => true
+
 /-- the step the status points at replaces every stable pod (partition-style canary) -/
 def fullStep (ro : Rollout) (s : Sub) (wl : WL) : Bool :=
   match ro.steps[(s.curIdx - 1).toNat]? with
@@ -162,6 +186,7 @@ def fullStepUnpinsFirst (w : World) (r : StepResult) : Bool :=
 
 def stepOracles (w : World) (r : StepResult) : List (String × Bool) :=
   [("C03.enter_routing_gated", enterRoutingGated w r),
+   ("C02.pods_before_next_state", enterRoutingGated w r),
    ("C02.advance_gated", advanceGated w r),
    ("C02.paused_no_progress", pausedNoProgress w r),
    ("C02.ready_gated", readyGated w r),
@@ -169,6 +194,7 @@ def stepOracles (w : World) (r : StepResult) : List (String × Bool) :=
    ("C10.rollback_first", rollbackFirst w r),
    ("C10.bluegreen_refuses_continuous", blueGreenRefusesContinuous w r),
    ("C04.full_step_unpins_first", fullStepUnpinsFirst w r),
-   ("C02.no_self_jump", noSelfJump w r)]
+   ("C02.no_self_jump", noSelfJump w r),
+   ("C10.reset_routes_first", resetRoutesFirst w r)]
 
 end RV.Oracle.RolloutSM
